@@ -622,6 +622,69 @@ async fn test_multipart_failed_complete() -> Result<()> {
 
 #[tokio::test]
 #[tracing::instrument]
+async fn test_multipart_complete_into_deleted_bucket() -> Result<()> {
+    use aws_sdk_s3::error::ProvideErrorMetadata;
+
+    let _guard = serial().await;
+
+    let c = Client::new(config());
+
+    let bucket = format!("test-mp-deleted-bucket-{}", Uuid::new_v4());
+    let bucket = bucket.as_str();
+    create_bucket(&c, bucket).await?;
+
+    let key = "sample.txt";
+
+    let upload_id = {
+        let ans = c.create_multipart_upload().bucket(bucket).key(key).send().await?;
+        ans.upload_id.unwrap()
+    };
+    let upload_id = upload_id.as_str();
+
+    c.upload_part()
+        .bucket(bucket)
+        .key(key)
+        .upload_id(upload_id)
+        .body(ByteStream::from_static(b"content"))
+        .part_number(1)
+        .send()
+        .await?;
+
+    // the bucket holds no object yet: it can be deleted
+    delete_bucket(&c, bucket).await?;
+
+    // the upload cannot be completed into the bucket that is gone, and the bucket does not come back
+    {
+        let part = CompletedPart::builder().part_number(1).build();
+        let upload = CompletedMultipartUpload::builder().parts(part).build();
+
+        let err = c
+            .complete_multipart_upload()
+            .bucket(bucket)
+            .key(key)
+            .multipart_upload(upload)
+            .upload_id(upload_id)
+            .send()
+            .await
+            .unwrap_err();
+        assert_eq!(err.code(), Some("NoSuchBucket"));
+
+        let err = c.head_bucket().bucket(bucket).send().await.unwrap_err();
+        assert_eq!(err.raw_response().map(|r| r.status().as_u16()), Some(404));
+    }
+
+    c.abort_multipart_upload()
+        .bucket(bucket)
+        .key(key)
+        .upload_id(upload_id)
+        .send()
+        .await?;
+
+    Ok(())
+}
+
+#[tokio::test]
+#[tracing::instrument]
 async fn test_multipart_replaces_object() -> Result<()> {
     let _guard = serial().await;
 
